@@ -290,6 +290,16 @@ func c18BuildPool(ctx *Ctx, t *tape.Tape) *c18Pool {
 		col = color.RGBA64{uint16(t.Intn(65536)), uint16(t.Intn(65536)), uint16(t.Intn(65536)), 0xffff}
 	}
 	p.tmpl.SetTransform(generate.Scale(2), generate.Translate(-32, -32))
+	if t.Bool() {
+		// a template that has already done work before it is copied (whatever
+		// a Generator keeps from earlier conversions is then in every copy)
+		var warm encode.Encoder
+		warm.Reset(ivg.DefaultViewBox, ivg.DefaultPalette)
+		p.tmpl.SetDestination(&warm)
+		_ = p.tmpl.SetPathData("M-8 -8L8 -8Q8 8 0 8T-8 0A4 4 0 0 1 -8 -8z", 0)
+		_ = p.tmpl.SetLinearGradient(-8, -8, 8, 8, generate.GradientSpreadPad, []generate.GradientStop{{Offset: 0, Color: color.RGBA{0xff, 0, 0, 0xff}}, {Offset: 1, Color: color.RGBA{0, 0, 0xff, 0xff}}})
+		p.tmpl.SetDestination(nil)
+	}
 	p.opts = append(make([]decode.DecodeOption, 0, 4), decode.WithPalette(*p.pals[0]), decode.WithColorAt(idx, col))
 	if t.Bool() {
 		p.opts = append(p.opts, decode.WithColorAt((idx+1)&63, color.RGBA{0x10, 0x20, 0x30, 0xff}))
